@@ -1,7 +1,7 @@
 """Persistence simulator shared by C04 (fault-free round trips) and C14 (fault enumeration over fs calls)."""
 import os, shutil, zipfile
 import modelx as mx
-from . import machine, gen, describe, history, fsshim, refmodel as rm
+from . import machine, gen, describe, history, fsshim, probe, refmodel as rm
 from .props.base import Violation
 from .props import c02
 
@@ -19,6 +19,8 @@ def swarm(rng, faults):
                 # derived cells are not written (see known_findings.json); witnesses replay them
                 "no_literal_modes": True, "inputs_defined_only": True,
                 "enumerate": rng.random() < 0.2, "compression": rng.choice([zipfile.ZIP_DEFLATED, zipfile.ZIP_STORED])})
+    # a reference value whose pickling / unpickling fails on command (the pickling operation as point of failure)
+    cfg["bomb"] = bool(faults) and not cfg["enumerate"] and rng.random() < 0.4
     return cfg
 
 
@@ -67,6 +69,9 @@ class Session:
                 v = rng.choice([{"t": "list", "v": [1, 2, 3]}, {"t": "str", "v": rng.choice(AWKWARD)}, {"t": "float", "v": 0.1},
                                 {"t": "tuple", "v": [1, 2]}, {"t": "str", "v": "x" * 5}])
                 extra.append({"op": "set_ref", "space": s.path(), "name": rng.choice(["s1", "s2"]), "value": v})
+        if cfg.get("bomb"):
+            sps = [""] + [x.path() for x in m.all_spaces()]
+            extra.append({"op": "set_ref", "space": rng.choice(sps), "name": "bb", "value": {"t": "bomb", "v": rng.randrange(1, 9)}})
         for op in extra:
             mach.do(op)
         # a query set, some of it inside ItemSpaces, and ItemSpace inputs
@@ -102,7 +107,11 @@ class Session:
     # ---- saving / loading --------------------------------------------------
     def save(self, m, path, is_zip, plan=None, backup=True):
         self.shim.install()
-        self.shim.window(plan)
+        pk = bool(plan) and plan.get("kind") == "pickle"
+        self.shim.window(None if pk else plan)
+        if pk:
+            probe.Bomb.ARM["dump"] = 1
+            probe.Bomb.FIRED["dump"] = 0
         try:
             try:
                 if is_zip:
@@ -113,6 +122,10 @@ class Session:
             except BaseException as e:
                 return e
         finally:
+            if pk:
+                probe.Bomb.ARM["dump"] = 0
+                if probe.Bomb.FIRED["dump"]:
+                    self.shim.fired.append((self.shim.nmut, "pickle_dump", "fail"))
             self.nmut_last = self.shim.nmut
             self.fired_last = list(self.shim.fired)
             self.save_fired = list(self.shim.fired)
@@ -124,7 +137,11 @@ class Session:
 
     def load(self, path, plan=None, name=None):
         self.shim.install()
-        self.shim.window(plan)
+        pk = bool(plan) and plan.get("kind") == "unpickle"
+        self.shim.window(None if pk else plan)
+        if pk:
+            probe.Bomb.ARM["load"] = 1
+            probe.Bomb.FIRED["load"] = 0
         try:
             try:
                 kw = {"name": name} if name else {}
@@ -132,6 +149,10 @@ class Session:
             except BaseException as e:
                 return None, e
         finally:
+            if pk:
+                probe.Bomb.ARM["load"] = 0
+                if probe.Bomb.FIRED["load"]:
+                    self.shim.fired.append((self.shim.nmut, "pickle_load", "fail"))
             self.fired_last = list(self.shim.fired)
             self.shim.window(None)
             self.shim.uninstall()
@@ -325,6 +346,8 @@ def run_c14(ctx):
                     plan = {"at": rng.randrange(0, 160 if is_zip else 20), "kind": kind, "errno": en}
                     if rng.random() < 0.1:
                         plan = {"at": rng.randrange(0, 40), "kind": "transient", "n": rng.choice([1, 2, 3])}
+                    if cfg.get("bomb") and rng.random() < 0.35:
+                        plan = {"kind": "pickle"}
                 plan_steps.append({"op": "save", "zip": is_zip, "plan": plan})
                 if rng.random() < 0.7:
                     plan_steps.append({"op": "edit"})
@@ -332,6 +355,8 @@ def run_c14(ctx):
                     lp = None
                     if rng.random() < 0.6:
                         lp = {"at": rng.randrange(0, 30), "kind": "fail", "errno": "EIO", "on": "read"}
+                        if cfg.get("bomb") and rng.random() < 0.5:
+                            lp = {"kind": "unpickle"}
                     plan_steps.append({"op": "load", "plan": lp})
                 if rng.random() < 0.15:
                     plan_steps.append({"op": "restart"})
@@ -457,7 +482,13 @@ def run_c14_steps(ctx, ses, plan_steps):
             plan = st.get("plan")
             m2, err = ses.load(state["path"], plan=None if not plan else plan, name="LD")
             # read faults: the shim numbers mutating calls only; a load plan is applied through corruption instead
-            if plan and err is None:
+            if plan and plan.get("kind") == "unpickle":
+                for f in ses.fired_last:
+                    ctx.count(f[2] + ":" + f[1], 1, "faults_fired")
+                if err is not None:
+                    ctx.count("failed_loads", 1, "reach")
+                    ctx.nontrivial = True
+            elif plan and err is None:
                 m2.close()
                 bad = corrupt(ses, state["path"], plan["at"])
                 m2, err = ses.load(state["path"], name="LD")
